@@ -53,6 +53,7 @@ CHECKS = {
         "quick": [
             {"name": LEDGER + "ZZ_C01_D1", "maporder": True, "native_repeat": 20, "reach": ["D1 end"], "bound": "two ledgers fed the same 1..3 updated items (symbolic values); EVERY permutation of every map iteration in SetFinality/Commit/refresh, independently per replica; with <=2 items also a second block with updates, a removal and a re-creation"},
             {"name": LEDGER + "ZZ_C01_D3", "reach": ["D3 end"], "bound": "3 ledger keys with symbolic leading bytes: Less is a strict total order, sorting is input-order independent"},
+            {"name": NODE + "ZZ_C06_M1", "reach": ["M1 end"], "bound": "node-local mempool / query traffic (twin of C06): one injected CheckTx or Query around block 3", "validate": 4},
             {"name": NODE + "ZZ_C01_D2", "native_repeat": 20, "reach": ["D2 end"], "bound": "twin applications in different data directories; replica A iterates every Go map ascending, replica B descending or rotated; genesis (2 validators in power bands, 3 accounts), 2 empty blocks, block 3 with two transactions from the menu {delegation, transfer, unbonding} with votes, block 4 with a missed vote"},
         ],
         "bounds": "D1: all iteration orders for <=3 dirty keys; D2: two fixed alternative orders per map for one block with 2 transactions; wall clock and data directory differ between replicas by construction (the model store's root hash ignores the directory, time.Now is a stub that never reaches an output)",
@@ -117,7 +118,7 @@ CHECKS = {
     },
     "C19": {
         "quick": [
-            {"name": NODE + "ZZ_C19_Q1", "reach": ["Q1 end"], "bound": "history of 3 committed blocks (genesis; transfer of a symbolic amount; delegation of symbolic power + reward issuance), block 4 in flight with a delivered transfer and a pending CheckTx; queries account x2, delegatee x2, stakes, stakes/total_power, reward, gov_params at height 0 (latest), 1, 2, 3 and 4 (future), repeated for the past height after block 4 is committed"},
+            {"name": NODE + "ZZ_C19_Q1", "validate": 40, "reach": ["Q1 end"], "bound": "history of 3 committed blocks (genesis; transfer of a symbolic amount; delegation of symbolic power + reward issuance), block 4 in flight with a delivered transfer and a pending CheckTx; queries account x2, delegatee x2, stakes, stakes/total_power, reward, gov_params at height 0 (latest), 1, 2, 3 and 4 (future), repeated for the past height after block 4 is committed"},
         ],
         "bounds": "heights 0..h+1 with h = 3; one in-flight block; one pending mempool check",
         "outside": "the proposal query (the handlers share the ImmutableLedgerAt path); stakes/voting_power (reads current parameters, not in the statement); vm_call; 'serving queries never alters what is committed' is decided by the C06 twin (Query injection)",
@@ -199,11 +200,12 @@ CHECKS = {
     "C20": {
         "quick": [
             {"name": P + "types/crypto.ZZ_C20_Step", "reach": ["Step end", "Step save failed"], "bound": "one SignVote/SignProposal with symbolic height/round/type, block id in {nil,B1,B2}, timestamp in {t0,t0+1s} from an arbitrary last-sign state (none, or the record of an arbitrary earlier request); state file writable or not"},
+            {"name": P + "types/crypto.ZZ_C20_Restart", "reach": ["Restart end"], "bound": "the signer as the node builds it (LoadOrGenSFilePV on key and state files, no passphrase): sign, 1 or 2 process restarts with nothing signed in between, second request (symbolic height/round/type/block id/timestamp)"},
             {"name": P + "types/crypto.ZZ_C20_Two", "reach": ["Two end"], "bound": "two requests from the initial state with an optional reload of the state file in between"},
         ],
         "bounds": "one inductive step from an arbitrary valid last-sign record (covers histories of any length and restarts between requests, because the step shows in-memory record == durable record on every return); 2-request bounded run as cross-check",
         "outside": "atomicity of tempfile.WriteFileAtomic itself; key-file encryption; POLRound of proposals fixed to -1",
-        "assumptions": ["the signing key is replaced by a counting identity-signer (crypto.PrivKey interface) so that signing events are observable", "A-CODEC for tmjson / protoio (canonical vote = tuple of its fields)", "tmtime.Now is a fixed instant (only used to blank timestamps before comparing)"],
+        "assumptions": ["Restart harness: tendermint secp256k1 key generation / public key / address / Sign are A-SIG stubs under the executor (real natively); the key file is written without passphrase (the pbkdf2/AES path is not a subject)", "the signing key is replaced by a counting identity-signer (crypto.PrivKey interface) so that signing events are observable", "A-CODEC for tmjson / protoio (canonical vote = tuple of its fields)", "tmtime.Now is a fixed instant (only used to blank timestamps before comparing)"],
     },
     "C15": {
         "quick": [
